@@ -1,8 +1,10 @@
 package rules
 
 import (
+	"go/constant"
 	"go/token"
 	"go/types"
+	"strconv"
 	"strings"
 
 	"golang.org/x/tools/go/ssa"
@@ -16,7 +18,7 @@ func init() {
 		Explanation: "Static gate / pairing / provenance rules over Agent.UpdatePeers and AddPeers: (after-update) every node mutator (RemoveTrustedPeer, DisconnectPeer, ConnectPeer, AddTrustedPeer), direct or through helpers, is reachable only through the success edge of the pool's Update call; " +
 			"(pairwise) each iteration over the invalid list calls RemoveTrustedPeer then DisconnectPeer with the same id, derived from that list's element; (invalid-list) without strict mode the list is the pool's InvalidPeers untouched, " +
 			"with strict mode it is rebuilt from the local peer list and a peer is kept out only on lookup-hit and equal remote host, the lookup being built from the pool's ActivePeers (id -> host, ports not compared); " +
-			"(shortfall) AddPeers is called exactly when NumHosts - len(ActivePeers) > 0, with that difference, which becomes PeerRequest.Num; Kind is the node's own kind iff it is not a full node; every returned peer's URI is dialled. Round 2: nothing mutates the node on the failure edge of an UpdatePeers call; only UpdatePeers/AddPeers regions and agent.Service methods may call node mutators; (fresh-reply) each RemotePool stub decodes into a fresh local; EnodeURI carries Network.RemoteAddress on every return.",
+			"(shortfall) AddPeers is called exactly when NumHosts - len(ActivePeers) > 0, with that difference, which becomes PeerRequest.Num; Kind is the node's own kind iff it is not a full node; every returned peer's URI is dialled. Round 2: nothing mutates the node on the failure edge of an UpdatePeers call; only UpdatePeers/AddPeers regions and agent.Service methods may call node mutators; (fresh-reply) each RemotePool stub decodes into a fresh local; EnodeURI carries Network.RemoteAddress on every return. Round 4 (id-form): the peer argument of every parity_*ReservedPeer RPC is never the bare \"enode://\"+id form (Parity rejects a URL without an address part: the peer would stay trusted and connected).",
 		NotDecided: []string{"not decided: multi-round convergence; behaviour of the node's own RPC; URI parsing of hostile peer descriptions (C15)"},
 	}
 }
@@ -626,10 +628,111 @@ func runC18(p *an.Prog, r *an.Run, tier string) {
 			}
 		}
 	}
+	checkNodeIDForms(p, r)
 	r.Check(len(bad) == 0, "shortfall", an.FuncName(ap), ap.Pos(), "Peer{Num: shortfall, Kind: own kind iff light}; ConnectPeer(URI) for each returned peer", "%s", strings.Join(bad, "; "))
 }
 
 // blockIsCtrl: like boolCtrl but also accepts the block that is the direct successor of the If (empty then-block merged into the phi's pred).
+// checkNodeIDForms: Parity's reserved-peer RPCs (what its adapter overloads for connect/disconnect/trust) take a full
+// enode URL; the agent hands invalid peers over as bare node ids. The adapter must therefore never send the bare
+// "enode://<id>" form (geth's), which Parity rejects: the peer would stay trusted and connected. Decided on the
+// shape of the value sent: a string assembled from the constant "enode://" and non-constant parts with no
+// constant address part ("@...").
+func checkNodeIDForms(p *an.Prog, r *an.Run) {
+	n := 0
+	for _, fn := range p.Repo {
+		if fn.Pkg == nil || !strings.HasSuffix(fn.Pkg.Pkg.Path(), "/ethnode") {
+			continue
+		}
+		for _, c := range an.Calls(fn, false) {
+			args := c.Common().Args
+			method := ""
+			for _, a := range args {
+				if k, ok := a.(*ssa.Const); ok && k.Value != nil && k.Value.Kind() == constant.String {
+					if sv := constant.StringVal(k.Value); strings.HasPrefix(sv, "parity_") && strings.Contains(sv, "ReservedPeer") {
+						method = sv
+					}
+				}
+			}
+			if sig := c.Common().Signature(); method == "" || len(args) == 0 || sig == nil || !sig.Variadic() || (c.Common().StaticCallee() != nil && p.InRepo(c.Common().StaticCallee())) {
+				continue
+			}
+			els, ok := variadicElems(args[len(args)-1])
+			if !ok || len(els) == 0 {
+				r.Undec("id-form", method+"@"+an.FuncName(fn), c.Pos(), "cannot see the arguments of %s", method)
+				continue
+			}
+			n++
+			var bad []string
+			for _, e := range els {
+				if why := bareEnodeForm(p, underlyingConcrete(e), 0); why != "" {
+					bad = append(bad, why)
+				}
+			}
+			r.Check(len(bad) == 0, "id-form", method+"@"+an.FuncName(fn), c.Pos(), "never the bare enode://<id> form", "%s sent to %s: Parity's reserved-peer calls need a full enode URL, a bare id is rejected and the peer stays trusted/connected", strings.Join(bad, "; "), method)
+		}
+	}
+	r.Floor("parity-peer-rpcs", n, 2)
+}
+
+// bareEnodeForm: v can be "enode://" + <non-constant> with no constant address part; returns a description or "".
+func bareEnodeForm(p *an.Prog, v ssa.Value, depth int) string {
+	switch x := v.(type) {
+	case *ssa.BinOp:
+		if x.Op != token.ADD {
+			return ""
+		}
+		var consts []string
+		nonConst := 0
+		var leaves func(v ssa.Value)
+		leaves = func(v ssa.Value) {
+			if b, ok := v.(*ssa.BinOp); ok && b.Op == token.ADD {
+				leaves(b.X)
+				leaves(b.Y)
+				return
+			}
+			if k, ok := v.(*ssa.Const); ok && k.Value != nil && k.Value.Kind() == constant.String {
+				consts = append(consts, constant.StringVal(k.Value))
+				return
+			}
+			nonConst++
+		}
+		leaves(x)
+		all := strings.Join(consts, "")
+		if strings.Contains(all, "enode://") && !strings.Contains(all, "@") && nonConst > 0 {
+			return "the bare form \"enode://\"+id built at " + p.Pos(x.Pos())
+		}
+	case *ssa.Phi:
+		for _, e := range x.Edges {
+			if why := bareEnodeForm(p, e, depth); why != "" {
+				return why
+			}
+		}
+	case *ssa.Call:
+		if f := an.CallObj(x); an.IsFunc(f, "fmt", "Sprintf") && len(x.Call.Args) > 0 {
+			if k, ok := x.Call.Args[0].(*ssa.Const); ok && k.Value != nil && k.Value.Kind() == constant.String {
+				sv := constant.StringVal(k.Value)
+				if strings.Contains(sv, "enode://") && !strings.Contains(sv, "@") {
+					return "the bare form " + strconv.Quote(sv) + " built at " + p.Pos(x.Pos())
+				}
+			}
+			return ""
+		}
+		callee := x.Call.StaticCallee()
+		if callee == nil || len(callee.Blocks) == 0 || !p.InRepo(callee) || depth >= 3 {
+			return ""
+		}
+		why := ""
+		an.AllInstrs(callee, func(in ssa.Instruction) {
+			if ret, ok := in.(*ssa.Return); ok && len(ret.Results) > 0 && why == "" {
+				why = bareEnodeForm(p, ret.Results[0], depth+1)
+			}
+		})
+		return why
+	}
+	return ""
+}
+
 func blockIsCtrl(b *ssa.BasicBlock, pred func(ssa.Value) bool, want bool) bool {
 	if len(b.Instrs) == 0 {
 		return false
